@@ -125,6 +125,8 @@ class SqlSeam:
         self.busy_retries = 0
         self.total_calls = 0
         self.after_commit = None   # callback() after a successful COMMIT
+        self.call_no = 0           # every execute/executemany/commit of the run
+        self.global_faults = {}    # call_no -> error text (faults not tied to a bracketed op)
         sim.stall_hooks.append(self._on_stall)
 
     def _on_stall(self):
@@ -197,6 +199,11 @@ class _TxQueue(kernel.Actor):
         if seam.capture and name in ("execute", "executemany"):
             seam.statements.append((seam.op, name, sql))
         plan = seam.fault_plan.get((seam.op, k)) if k is not None else None
+        if counted and not sim.draining:
+            n = seam.call_no
+            seam.call_no += 1
+            if plan is None and n in seam.global_faults:
+                plan = ("error", seam.global_faults[n])
         try:
             if plan is not None and plan[0] == "error":
                 sim.faults["sql_error"] += 1
